@@ -46,7 +46,7 @@ PLAN17 = {
     "thorough": dict(mc=["MC_Reobserve_thorough.cfg", "MC_Reobserve_post.cfg"], tlc=(2500, 24),
                      gens=[("sweep", 448), ("random", 3000), ("phase", 2500), ("fill", 600), ("wide", 60)]),
 }
-PLAN15 = {"quick": dict(seeded=800), "thorough": dict(seeded=20000)}
+PLAN15 = {"quick": dict(seeded=800, batches=250), "thorough": dict(seeded=20000, batches=6000)}
 
 ASSUME17 = [
     "the harness issues a request only after the previous step's sentinel was received and the ticker channel is empty, i.e. tick processing "
@@ -204,17 +204,18 @@ def run17(tier, replay):
 # ============================================================================ C15
 
 def _selftests15(lines):
-    """Corrupt one payload digit / one header field / the purity of one accepted line; TLC must reject each copy."""
+    """Corrupt one payload digit / one header field / the purity of one accepted line / only the payload as read again
+    after later constructions; TLC must reject each copy."""
     extra, expect = [], {}
     tid = 900000
-    base = next((ln for ln in lines if all(c["class"] == "vaa" for c in ln["s"]["calls"]) and len(ln["s"]["calls"]) == 3
+    base = next((ln for ln in lines if all(c["class"] == "vaa" for c in ln["s"]["calls"]) and len(ln["s"]["calls"]) == 6
                  and ln["a"]["req"]["kind"] == "transfer_fee"), None)
     if base is None:
         return extra, expect
 
     def flip(h, i):
         return h[:i] + ("1" if h[i] != "1" else "2") + h[i + 1:]
-    for name in ("payload", "header", "impure", "digest"):
+    for name in ("payload", "header", "impure", "digest", "later"):
         tid += 1
         ln = copy.deepcopy(base)
         ln["t"] = tid
@@ -227,6 +228,8 @@ def _selftests15(lines):
                 c["vaa"]["seq"] = flip(c["vaa"]["seq"], 15)
         elif name == "impure":
             calls[1]["vaa"]["cl"] = calls[1]["vaa"]["cl"] + 1
+        elif name == "later":      # only the value read again at the end differs (aliasing)
+            calls[-1]["vaa"]["payload"] = flip(calls[-1]["vaa"]["payload"], 70)
         else:
             for c in calls:
                 c["vaa"]["digest"] = flip(c["vaa"]["digest"], 3)
@@ -271,20 +274,29 @@ def run15(tier, replay):
     # 3. requests
     if replay:
         rp = json.load(open(replay))
-        cases = [fg.gov_expand(v["detail"]["case"]) for v in rp.get("violations", []) if v.get("detail", {}).get("case", {}).get("req", {}).get("seq")]
+        cases, seenc = [], set()
+        for v in rp.get("violations", []):
+            cs = v.get("detail", {}).get("case")
+            if cs and json.dumps(cs, sort_keys=True) not in seenc:
+                seenc.add(json.dumps(cs, sort_keys=True))
+                cases.append(fg.gov_expand(cs))
         if not cases:
             raise vlib.Broken("replay file has no case")
     else:
         cases = [{"req": x["req"], "expect": x["expect"], "src": "tlc"} for x in reqs]
         cases += fg.gov_seeded(seed, PLAN15[tier]["seeded"])
-    lines, wall = fg.gov_replay(work, cases)
-    print("replayed %d requests on the real conversion functions / InjectGovernanceVAA in %.1fs" % (len(lines), wall))
+        cases += [{"reqs": b, "src": "tlc-batch"} for b in mc["batches"]]
+        cases += fg.gov_seeded_batches(seed, PLAN15[tier]["batches"])
+    lines, wall, tmap = fg.gov_replay(work, cases)
+    nmulti = sum(1 for c in cases if "reqs" in c)
+    print("replayed %d messages (%d requests, %d of them carrying 2-4 messages) on the real conversion functions / InjectGovernanceVAA in %.1fs"
+          % (len(lines), len(cases), nmulti, wall))
     extra, expect = ([], {}) if replay else _selftests15(lines)
     rejs, r = fg.gov_validate(work, lines + extra)
     seen = {rj["t"]: rj.get("tags", []) for rj in rejs if rj["t"] in expect}
     if not replay:
-        wrong = [k for k, name in expect.items() if name not in seen.get(k, [])]
-        if len(expect) < 4 or wrong:
+        wrong = [k for k, name in expect.items() if {"later": "impure"}.get(name, name) not in seen.get(k, [])]
+        if len(expect) < 5 or wrong:
             raise vlib.Broken("negative self-test of Trace_Governance failed: %s not rejected as expected (%s)" % (wrong, seen))
     rejs = [rj for rj in rejs if rj["t"] not in expect]
     print("trace validation: %.1fs, %d rejected request(s); self-test: %d corrupted lines rejected" % (r["wall_s"], len(rejs), len(seen)))
@@ -292,8 +304,8 @@ def run15(tier, replay):
     found = []
     for rj in rejs:
         ln = byt[rj["t"]]
-        case = cases[rj["t"] - 1]
-        small = {"kind": rj.get("kind"), "tags": rj.get("tags"), "unfit": rj.get("unfit"), "expect": rj.get("expect"),
+        case = tmap[rj["t"]][0]
+        small = {"kind": rj.get("kind"), "tags": rj.get("tags"), "unfit": rj.get("unfit"), "expect": rj.get("expect"), "message": ln["a"].get("batch"),
                  "calls": [{k: (v if k != "vaa" else {kk: (vv if len(str(vv)) < 300 else str(vv)[:300] + "...") for kk, vv in v.items()})
                             for k, v in c.items()} for c in ln["s"]["calls"]],
                  "case": fg.gov_compact({k: v for k, v in case.items() if k != "expect"})}
@@ -302,10 +314,10 @@ def run15(tier, replay):
     _add_distinct_first(verdict, found)
     # R: the outcome TLC exported for its own enumeration must also be what validation concluded (consistency of the two paths)
     rejected_ids = {rj["t"] for rj in rejs}
-    for i, c in enumerate(cases):
+    for t, (c, _) in tmap.items():
         if c.get("src") == "tlc" and c.get("expect", {}).get("class") == "reject":
-            if any(k["class"] == "vaa" for k in byt[i + 1]["s"]["calls"]) and (i + 1) not in rejected_ids:
-                raise vlib.Broken("TLC's exported expectation and trace validation disagree on case %d" % (i + 1))
+            if any(k["class"] == "vaa" for k in byt[t]["s"]["calls"]) and t not in rejected_ids:
+                raise vlib.Broken("TLC's exported expectation and trace validation disagree on case %d" % t)
     # independent digest check
     dig_checked = dig_bad = 0
     for ln in lines:
@@ -329,11 +341,34 @@ def run15(tier, replay):
             accepted[q["kind"]] += 1
         shape = tuple(sorted((k, _shape(v)) for k, v in q.items() if k != "kind"))
         classes.add((q["kind"], oc, shape))
+    # multi-message requests: relation of each message's payload length to the previous message of the same request
+    multi = Counter()
+    later_reads = 0
+    for ln in lines:
+        later_reads += sum(1 for c in ln["s"]["calls"] if c.get("via", "").endswith("-later") and c["class"] == "vaa")
+    first_t = {}
+    for t, (cc, i) in tmap.items():
+        if "reqs" in cc and i == 0:
+            first_t[id(cc)] = t
+    for cc_id, t in first_t.items():
+        cc = tmap[t][0]
+        ls = [byt[t + i] for i in range(len(cc["reqs"]))]
+        ok = all(c["class"] == "vaa" for ln in ls for c in ln["s"]["calls"])
+        multi["accepted" if ok else "refused"] += 1
+        if ok:
+            for a, b in zip(ls, ls[1:]):
+                la, lb = len(a["s"]["calls"][0]["vaa"]["payload"]), len(b["s"]["calls"][0]["vaa"]["payload"])
+                same = a["a"]["req"]["kind"] == b["a"]["req"]["kind"]
+                multi["%s-kind/next-%s" % ("same" if same else "other", "shorter" if lb < la else "equal" if lb == la else "longer")] += 1
     if not replay and rc == 0:
+        need = ["same-kind/next-shorter", "same-kind/next-equal", "same-kind/next-longer", "other-kind/next-shorter", "other-kind/next-longer"]
+        miss = [k for k in need if not multi[k]]
+        if miss or not later_reads:
+            raise vlib.Broken("vacuous run: multi-message classes %s never accepted / %d later re-reads" % (miss, later_reads))
         none_acc = [k for k in fg.GOV_KINDS if not accepted[k]]
         if none_acc:
             raise vlib.Broken("vacuous run: no request of kind %s was accepted, the exact-payload half was not exercised" % none_acc)
-    sample = [{"source": c.get("src"), "req": c["req"]} for c in cases[:1] + cases[-1:] if len(json.dumps(c["req"])) < 4000]
+    sample = [{"source": c.get("src"), "req": c.get("req"), "reqs": c.get("reqs")} for c in cases[:1] + cases[-1:] if len(json.dumps(c)) < 6000]
     cov = {
         "states": mc["distinct"], "transitions": mc["generated"],
         "traces_validated_against_impl": len(lines),
@@ -343,11 +378,13 @@ def run15(tier, replay):
         "rule": "one evaluation = one call of the real code (InjectGovernanceVAA on two service instances, conversion function directly) whose "
                 "outcome TLC compared with the specification; distinct = distinct (kind, outcome classes, per-field shape [text form and byte "
                 "length, list pattern and length, numeric magnitude class]) tuples",
-        "mc_config": "MC_Governance_%s.cfg" % tier, "requests_from_tlc": len(reqs), "requests_seeded": len(cases) - len(reqs) if not replay else 0,
+        "mc_config": "MC_Governance_%s.cfg" % tier, "requests_from_tlc": len(reqs), "multi_message_requests_from_tlc": len(mc["batches"]),
+        "requests_seeded": sum(1 for c in cases if str(c.get("src", "")).startswith("seeded")),
         "outcomes": {"%s:%s" % k: v for k, v in sorted(outc.items())},
         "accepted_per_kind": dict(accepted),
         "ralph": {"parsers": {f: sorted(extracted[f]["parsers"]) for f in ex.FILES}, "differences": diffs,
                   "upgrade_blob_from": extracted.get("upgrade_blob_from")},
+        "multi_message_requests": dict(multi), "vaas_read_again_after_later_constructions": later_reads,
         "digests_rechecked_in_python": dig_checked,
         "negative_selftest": {str(k): v for k, v in expect.items()},
         "rejected_requests": len(rejs), "known_findings_matched": getattr(verdict, "n_known", 0),
